@@ -124,14 +124,13 @@ def analyse(facts, tier):
             if st['s'].get('k') == 'DeclStmt':
                 for v in st['s']['decls']:
                     if 'init' in v:
-                        i = strip(v['init'])
-                        if i.get('k') == 'ConditionalOperator' and const_of(i['l']) is not None:
-                            c = strip(i['cnd'])
-                            if c.get('k') == 'BinaryOperator' and c['op'] == '>' and const_of(c['r']) == const_of(i['l']) and show(c['l']) == show(i['r']):
-                                clamp = (const_of(i['l']), st['loc'], v['id'])
+                        m = minlike(v['init'])
+                        cs = [const_of(arm) for arm in m if const_of(arm) is not None] if m else []
+                        if len(cs) == 1 and cs[0] >= 64:
+                            clamp = (cs[0], st['loc'], v['id'])
         ok = clamp is not None and clamp[0] <= 512
         obls.append(Obl('C13.R2', fn.name, 'period clamp', clamp[1] if clamp else fn.loc, 'discharged' if ok else 'finding',
-                        why='frames = (n > %d) ? %d : n, and 2*%d samples fit m_outBuf[1024]' % (clamp[0], clamp[0], clamp[0]) if ok else 'no clamp of the period to 512 frames'))
+                        why='frames = min(n, %d), and 2*%d samples fit m_outBuf[1024]' % (clamp[0], clamp[0]) if ok else 'no clamp of the period to 512 frames'))
         if clamp:
             # every use of the period in memset / generate / SendStereoAudio goes through the clamped variable
             uses_ok = True
